@@ -194,9 +194,17 @@ def markov_joint_mp(post, d):
     means = [None] * (N + 1)
     means[N] = mT
     cov = {(N, N): mpl.mm(LT, LT.T)}
+    # float64 rounding bound of the same mean recursion (m_k = G m_{k+1} + xi amplifies by |G|)
+    c_eps = 20.0 * 2.0**-52
+    _abs = np.vectorize(abs, otypes=[object])
+    noise = [None] * (N + 1)
+    noise[N] = c_eps * mpl.F(_abs(mT))
+    markov_joint_mp.mean_noise = noise
     for k in range(N - 1, -1, -1):
         G, xi, Lq = cond_mp(tree_index(post.conditional, k), d)
         means[k] = mpl.mm(G, means[k + 1]) + xi
+        absG = mpl.F(_abs(G))
+        noise[k] = absG @ noise[k + 1] + c_eps * (absG @ mpl.F(_abs(means[k + 1])) + mpl.F(_abs(xi)))
         cov[(k, k)] = mpl.mm(G, cov[(k + 1, k + 1)], G.T) + mpl.mm(Lq, Lq.T)
         for j in range(k + 1, N + 1):
             cov[(k, j)] = mpl.mm(G, cov[(k + 1, j)])
